@@ -173,7 +173,19 @@ pub fn cross(c: &Case, kind: &str) -> (Vec<Failure>, u64) {
         // follow mode from the head of the file: everything appended at once, and line by line
         // (follow mode does not support joins: it reports JoinNotSupported)
         if !c.stmt.contains("LIMIT") && st.join_clause().is_none() {
-            for (name, chunks) in [("follow:at-once", vec![one.clone()]), ("follow:line-by-line", c.lines.iter().map(|l| format!("{}\n", l).into_bytes()).collect::<Vec<_>>())] {
+            let mut fragments: Vec<Vec<u8>> = Vec::new();
+            for l in c.lines {
+                let b = format!("{}\n", l).into_bytes();
+                if b.len() >= 3 {
+                    let (p, q) = (b.len() / 3, 2 * b.len() / 3);
+                    fragments.push(b[..p].to_vec());
+                    fragments.push(b[p..q].to_vec());
+                    fragments.push(b[q..].to_vec());
+                } else {
+                    fragments.push(b);
+                }
+            }
+            for (name, chunks) in [("follow:at-once", vec![one.clone()]), ("follow:line-by-line", c.lines.iter().map(|l| format!("{}\n", l).into_bytes()).collect::<Vec<_>>()), ("follow:three-fragments-per-line", fragments)] {
                 let (delivered, end, ok) = crate::checks::c10::follow_child_def(true, b"", &chunks, c.stmt, -1, Some(c.def));
                 let got = if st.is_aggregate() { last_table(&delivered) } else { delivered.iter().filter(|l| !l.is_empty() && !l.contains('\u{1b}')).cloned().collect() };
                 if end == "ok" && ok {
